@@ -25,17 +25,19 @@ NEEDS = {
  'C20': 'two events due at one simulated instant with a slow step (strict mode) or a sync() between them',
 }
 CHECKS = {'C08': ['C08', 'C12'], 'C12': ['C12', 'C14']}
+BASE = os.environ.get('MUTDIR', '/tmp/mut')
+SUFFIX = os.environ.get('SEED_SUFFIX', '')
 ids = sys.argv[1:] or sorted(NEEDS)
 for i in ids:
-    src, dst = '/tmp/mut/out/%s' % i, '/verif/seeded/%s' % i
+    src, dst = '%s/out/%s' % (BASE, i), '/verif/seeded/%s%s' % (i, SUFFIX)
     if not os.path.exists(src + '/patch.diff'):
         print('skip', i); continue
     os.makedirs(dst, exist_ok=True)
     for f in ('patch.diff', 'demo.py', 'notes.md'):
         if os.path.exists(src + '/' + f):
             shutil.copy(src + '/' + f, dst + '/' + f)
-    checks = CHECKS.get(i, [i])
-    out = subprocess.run(['/verif/tools_eval_seed.sh', i] + checks, capture_output=True, text=True).stdout
+    checks = os.environ.get('SEED_CHECKS', '').split() or CHECKS.get(i, [i])
+    out = subprocess.run(['/verif/tools_eval_seed.sh', i] + checks, capture_output=True, text=True, env=dict(os.environ, MUTDIR=BASE)).stdout
     suite = re.search(r'== suite with change\n(.*)', out)
     dw = re.search(r'== demo with change\nexit=(\d+)', out)
     dwo = re.search(r'== demo without change\nexit=(\d+)', out)
@@ -45,7 +47,7 @@ for i in ids:
         blk = m.group(1) if m else ''
         labels = sorted(set(re.findall(r'\["((?:c\d\d|no)[^"]*)"', blk)))
         caught[c] = {'violation_reported': 'VIOLATION property=%s' % c in blk, 'labels': labels[:6]}
-    meta = {'breaks_property': i, 'needs_to_manifest': NEEDS[i], 'source': 'independent sub-agent given only the property text and a scratch worktree',
+    meta = {'breaks_property': i, 'needs_to_manifest': os.environ.get('SEED_NEEDS') or NEEDS[i], 'source': 'independent sub-agent given only the property text and a scratch worktree',
             'patch_files': re.findall(r'^\+\+\+ b/(.*)$', open(dst + '/patch.diff').read(), re.M),
             'what_was_run': ['cd <worktree> && git apply patch.diff && /venv/bin/python -m pytest -q -p no:cacheprovider --timeout=900',
                              'PYTHONPATH=<worktree> /venv/bin/python demo.py   (with and without the change)',
